@@ -88,6 +88,9 @@ static void op_scan(thr_t *t) {
   ro.verify_checksums = trn(t, 2);
   EV("Call", "\"op\":\"scan\",\"dir\":%d", dir);
   it = ldb_iterator(db, &ro);
+  if (mode == 1 && trn(t, 3) == 0) { /* a long-lived iterator reads megabytes: the read-sampling path (about one sample per MiB) runs against flushes and compactions */
+    int pass; for (pass = 0; pass < 12; pass++) for (ldb_iter_first(it); ldb_iter_valid(it); ldb_iter_next(it)) { ldb_slice_t vv = ldb_iter_value(it); (void)vv; }
+  }
   for (dir ? ldb_iter_last(it) : ldb_iter_first(it); ldb_iter_valid(it) && n < 40; dir ? ldb_iter_prev(it) : ldb_iter_next(it)) {
     ldb_slice_t kk = ldb_iter_key(it), vv = ldb_iter_value(it);
     p += sprintf(items + p, "%s[%d,%d]", n++ ? "," : "", d_rankof(kk), d_valid(vv.data, vv.size));
